@@ -624,6 +624,9 @@ func TestC07Random(t *testing.T) {
 		if rapid.IntRange(0, 1).Draw(rt, "flip") == 0 && kit.PlantCaptiveFlip(rt, cfg) {
 			planted = append(planted, "provider-made-scoped")
 		}
+		if rapid.IntRange(0, 2).Draw(rt, "sliceNamed") == 0 && kit.PlantSliceNamed(rt, cfg) {
+			planted = append(planted, "scoped-slice-service-named-like-a-group-field")
+		}
 		if rapid.IntRange(0, 3).Draw(rt, "samector") == 0 && kit.PlantSameCtor(rt, cfg) {
 			planted = append(planted, "same-constructor-registered-again-as-long-lived")
 		}
